@@ -154,6 +154,12 @@ def run(ctx, chk):
                 has_decl = any(s_ in decl for s_ in ss)
                 if has_len and has_decl:
                     found = True
+                # the length query failed and the code substituted 0: comparing the declared size with that 0 is the
+                # same guard (it rejects every real image)
+                t_ = d[0]
+                if has_decl and not has_len and t_[0] == 'o' and t_[2] in ('ult', 'ule', 'ugt', 'uge') and \
+                        any(a_[0] == 'c' and a_[2] == 0 for a_ in t_[3:]):
+                    found = True
             if not found:
                 len_cmp_all = False
         else:
